@@ -1,4 +1,5 @@
 #include "../../include/PolarGrid/polargrid.h"
+#include "../../include/common/verif_hooks.h"
 
 void PolarGrid::RadialAnisotropicDivision(std::vector<double>& r_temp, const double& R0, const double& R,
                                           const int nr_exp, const double& refinement_radius,
@@ -47,6 +48,9 @@ void PolarGrid::RadialAnisotropicDivision(std::vector<double>& r_temp, const dou
 
     se     = floor(nr * percentage) - n_elems_refined / 2;
     int ee = se + n_elems_refined;
+    GMGPOLAR_VERIF_TRACE("anisoIndices", nr_exp, {},
+                         {(double)anisotropic_factor, floor(nr * percentage), (double)se, (double)ee,
+                          (double)n_elems_refined, (double)n_elems_equi});
     if (se < 0 || ee > nr) {
         throw std::invalid_argument("The refinement radius is too close to the domain boundary for the chosen "
                                     "anisotropic factor.");
